@@ -16,7 +16,7 @@ import (
 	"verifharness/world"
 )
 
-const connectRule = "workloads: connect-exhaustive = every sequence of 1..3 client packets over a 25-symbol alphabet (4 CONNECT variants, 5 AUTH variants, 3 WILLTOPIC, 2 WILLMSG, REGISTER, 5 PUBLISH/SUBSCRIBE variants, 2 PINGREQ, plain and sleep DISCONNECT, PUBACK) x authentication on/off against an accepting broker; connect-random = perturbed valid connect flows (drop/duplicate/swap/insert over 51 symbols covering all 28 packet types) with broker CONNACK codes 0-5/9/silence, 4 gateway credential variants and 0/1 s/4.9 s gaps. Each sequence is sent in lock-step (quiescence between packets) to the real session handler in a virtual-time bubble; a case is non-trivial when the monitor's antecedent fired at least once; distinct by script."
+const connectRule = "workloads: connect-exhaustive = every sequence of 1..3 client packets over a 26-symbol alphabet (4 CONNECT variants, 5 AUTH variants, 3 WILLTOPIC, 2 WILLMSG, REGISTER, 5 PUBLISH/SUBSCRIBE variants, 2 PINGREQ, plain, sleep and explicit-zero-duration DISCONNECT, PUBACK) x authentication on/off against an accepting broker; connect-random = perturbed valid connect flows (drop/duplicate/swap/insert over 51 symbols covering all 28 packet types) with broker CONNACK codes 0-5/9/silence, 4 gateway credential variants and 0/1 s/4.9 s gaps. Each sequence is sent in lock-step (quiescence between packets) to the real session handler in a virtual-time bubble; a case is non-trivial when the monitor's antecedent fired at least once; distinct by script."
 
 func TestC07(t *testing.T) {
 	r := rt.Start(t, "C07")
